@@ -328,7 +328,7 @@ fn groups(g: &mut Groups) {
 
     g.prop(
         "timestamp",
-        400_000,
+        1_000_000,
         20_000_000,
         || (
             prop_oneof![Just(0u64), 0u64..100_000, 0u64..(1 << 33)],
